@@ -156,6 +156,7 @@ def run(ctx):
                 conn = C.Connection('h', 1, auth_token=Tok(), allowed_versions={757}, handle_exception=lambda e, i: None)
                 for k in range(2):
                     cfg['script'] = [('encrypt', sid, b'vt%d' % k), ('success',)]
+                    cfg['rsa'] = ['1024', '2048'][(k + conn_no) % 2]      # the server's key pair changes between logins (a restart)
                     conn.connect()
                     net.run_threads()
                     srv = cfg['servers'][-1]
@@ -171,6 +172,59 @@ def run(ctx):
                           'Java would compute %s' % (sid, bad_at + 1, joins[bad_at] if bad_at < len(joins) else None,
                                                      expected[bad_at] if bad_at < len(expected) else None),
                           {'server_id': sid, 'joins': joins, 'expected': expected}, key={'kind': 'join-sequence', 'server_id': sid})
+    # ---- the session service refuses the first join (403: the access token has expired) and would accept a refresh: whatever
+    # the library does about it, EVERY join request it posts for this login carries the hash of this login
+    for trial in range(ctx.scale(4, 20)):
+        sid = ['', 'srv', 'é-id', 'x' * 20][trial % 4]
+        posts = []
+
+        def post(url, data=None, headers=None, timeout=None, posts=posts):
+            body = _json.loads(data)
+            if url.endswith('/join'):
+                posts.append(('join', body.get('serverId')))
+                if len([p_ for p_ in posts if p_[0] == 'join']) == 1:
+                    err = {'error': 'ForbiddenOperationException', 'errorMessage': 'Invalid token'}
+                    return types.SimpleNamespace(status_code=403, text=_json.dumps(err), json=lambda: err)
+                return types.SimpleNamespace(status_code=204, text='', json=lambda: {})
+            if url.endswith('/refresh'):
+                posts.append(('refresh', None))
+                ok = {'accessToken': 'at2', 'clientToken': body.get('clientToken'),
+                      'selectedProfile': {'id': '0123456789abcdef0123456789abcdef', 'name': 'Prof'}}
+                return types.SimpleNamespace(status_code=200, text=_json.dumps(ok), json=lambda: ok)
+            posts.append(('other', url))
+            return types.SimpleNamespace(status_code=204, text='', json=lambda: {})
+        tok = A_.AuthenticationToken(username='acct', access_token='at', client_token='ct')
+        tok.profile = A_.Profile(id_='0123456789abcdef0123456789abcdef', name='Prof')
+        cfg = {'version': 757, 'rsa': ['1024', '2048'][trial % 2], 'script': [('encrypt', sid, b'vtok'), ('success',)]}
+        saved_post = A_.requests.post
+        A_.requests.post = post
+        try:
+            with simnet.Net(lambda s_: RefServer(s_, cfg)) as net:
+                conn = C.Connection('h', 1, auth_token=tok, allowed_versions={757}, handle_exception=lambda e, i: None)
+                conn.connect()
+                net.run_threads()
+                srv = cfg['servers'][-1]
+        finally:
+            A_.requests.post = saved_post
+        ctx.case(('join-refused-first', trial, sid))
+        ctx.count('join-refused-first')
+        sent = [p_[1] for p_ in posts if p_[0] == 'join']
+        # the secret reaches the server only if the client went on after a successful (second) join; otherwise recover nothing
+        want = None
+        if srv.secret is not None:
+            want = java_hex(hashlib.sha1(sid.encode('utf-8') + srv.secret + srv.key['der']).digest())
+        bad = None
+        if not sent:
+            bad = 'no join request was posted'
+        elif len(set(sent)) > 1:
+            bad = 'the join requests of ONE login carry different server ids: %r' % (sent,)
+        elif want is not None and sent[0] != want:
+            bad = 'join carries %r, Java would compute %r' % (sent[0], want)
+        elif any(x == sid for x in sent) and sid != java_hex(hashlib.sha1(b'').digest()):
+            bad = 'a join request carries the raw server id %r instead of the hash' % (sid,)
+        if bad:
+            ctx.violation('the session service answers the first join with 403 (and would accept a refresh): %s' % bad,
+                          {'server_id': sid, 'requests': [p_[0] for p_ in posts]}, key={'kind': 'join-refused-first', 'server_id': sid})
     # ---- ONE token shared by two connections that log in to different servers at the same time: the other login's join()
     # runs in the middle of this one (forced at a call the body construction makes anyway: Profile.to_dict); each request
     # must carry the hash its own caller passed in
